@@ -201,7 +201,7 @@ func genDecW(emit func(string), tier string, rng *Rng) {
 		}
 	}
 	// hand-built developer-data streams (wire_dev.go) and their mutations
-	for i := 0; i < n/2; i++ {
+	for i := 0; i < min(n/2, 8000); i++ {
 		b := devwStream(rng)
 		emitB(rng.Intn(2), b)
 		count("devstream")
